@@ -326,3 +326,14 @@ Proof.
   { unfold is_nl in H. apply orb_prop in H. destruct H as [H|H]; apply Ascii.eqb_eq in H; subst; reflexivity. }
   now rewrite Hd, H.
 Qed.
+
+Theorem b64_newlines_and_rejects (st : quantum) (ch : ascii) (t : string) :
+  (is_nl ch = true -> b64_decode_from st (String ch t) = b64_decode_from st t) /\
+  (b64_digit ch = None -> is_nl ch = false -> Ascii.eqb ch pad_char = false ->
+     b64_decode_from st (String ch t) = None).
+Proof. split; [apply b64_skip_nl|apply b64_reject_char]. Qed.
+
+Lemma b64_examples :
+  b64_encode "AB" = "QUI=" /\ b64_decode "QUI=" = Some "AB" /\ b64_decode "QQ=" = None /\
+  b64_decode "QR==" = Some "A" /\ b64_decode "QQ==QQ==" = None /\ b64_decode "QU-D" = None.
+Proof. vm_compute. repeat split. Qed.
